@@ -557,7 +557,26 @@ func (g *txnGen) genColValue(c ColSpec) *Value {
 func (g *txnGen) genWhere(t TableSpec) []WCondJ {
 	rng := g.rng
 	ex := g.sh.uuids(t.Name)
-	switch k := rng.Intn(10); {
+	switch k := rng.Intn(12); {
+	case k >= 10 && len(ex) > 0:
+		// a row named by its uuid AND a guard on its contents (which holds or not), in either order
+		u := ex[rng.Intn(len(ex))]
+		guard := WCondJ{Col: "n", Fn: []string{"<", "<=", ">", ">=", "!=", "=="}[rng.Intn(6)], Val: VA(AI(int64(rng.Intn(4))))}
+		if rng.Intn(2) == 0 {
+			guard = WCondJ{Col: "name", Fn: []string{"==", "!="}[rng.Intn(2)], Val: VA(AS([]string{"", "a", "b", "c", "d"}[rng.Intn(5)]))}
+		}
+		if src, ok := g.sh.rows[t.Name][u]; ok && rng.Intn(2) == 0 {
+			if v := src["n"]; v != nil {
+				guard = WCondJ{Col: "n", Fn: "==", Val: nativeToOvsValue(v)} // the guard of an optimistic update: holds
+			}
+		}
+		byU := WCondJ{Col: "_uuid", Fn: "==", Val: VA(AU(u))}
+		if rng.Intn(2) == 0 {
+			return []WCondJ{byU, guard}
+		}
+		return []WCondJ{guard, byU}
+	case k >= 10:
+		return nil
 	case k < 4 && len(ex) > 0:
 		return []WCondJ{{Col: "_uuid", Fn: "==", Val: VA(AU(ex[rng.Intn(len(ex))]))}}
 	case k < 7:
